@@ -2,7 +2,7 @@
 C11 — YAML output reads back as the same data; JSON fed to the YAML decoder means JSON.
 
 Only statements live here; proofs are in CueVerif/Proofs/{Yaml,YamlRe}.lean (and, for the
-re-quoting of decoded strings, C09's Proofs/QuoteMain.lean).  The model (Model/Yaml.lean)
+re-quoting of decoded strings, C09's Proofs/QuoteMain.lean; Proofs/YamlBlock.lean for literal blocks).  The model (Model/Yaml.lean)
 transcribes the IN-REPO decisions of internal/encoding/yaml/goccy/{encode,decode}.go: which
 scalar style a string gets (`valueStyle`, `keyStyle`) and how the decoder classifies a scalar
 token (`decodeScalar`).  Third-party behaviour appears only as explicit parameters:
@@ -19,6 +19,7 @@ property is the encode→decode predicate evaluated on the implementation by har
 -/
 import CueVerif.Spec.Yaml
 import CueVerif.Proofs.Yaml
+import CueVerif.Proofs.YamlBlock
 import CueVerif.Spec.Quote
 import CueVerif.Proofs.QuoteMain
 namespace CueVerif.C11
@@ -152,40 +153,43 @@ example : Quote.RoundTrips Quote.asciiEnv ((Quote.stringForm.withOptionalTabInde
 
 /-! ### literal block scalars -/
 
-/-- The full-strength statement: every string the in-repo `blockLiteralSafe` admits is read
-back from the literal block the emitter writes (no indentation indicator, chomping indicator
-from the trailing line breaks; parser per YAML 1.2 §8.1.1). -/
-def C11_block_roundtrip_stmt : Prop := ∀ s : Bytes, blockLiteralSafe s = true → BlockRoundTrips s
+/-- For ALL strings the in-repo `blockLiteralSafe` admits (a multi-line CUE literal, or a string
+with line breaks handed to the library): the literal block the emitter writes — chomping
+indicator from the trailing line breaks (`|`, `|-`, `|+`), never an indentation indicator,
+every non-empty line indented by ANY number `ind` of blanks, empty lines left empty — is read
+back by a YAML 1.2 §8.1.1 parser (indentation detected from the first non-empty line; strip /
+clip / keep) as exactly the string.  Full strength since /repo 05f5435.  What the proof uses of
+`blockLiteralSafe` is precisely the part added by that commit: the first non-empty line exists
+and does not start with a blank.  (The other conjuncts — no line ending in a blank, nothing
+unprintable — guard the printer's blank-line padding and escaping, which are library behaviour
+outside this model; the `block` ops compare model and library on every block of a run.) -/
+theorem C11_block_roundtrip (s : Bytes) (h : blockLiteralSafe s = true) : BlockRoundTrips s :=
+  block_roundtrip s h
 
-/-- It is FALSE of the code as it is: the string "\n" is admitted, written as `|` with an empty
-body, and reads back as "" (genuine defect; replayed on the implementation, class
-goccy-block-only-newlines) … -/
-theorem C11_block_roundtrip_false : ¬ C11_block_roundtrip_stmt := by
+-- non-vacuity: a string with inner and trailing blank lines and an indented inner line
+example : BlockRoundTrips (b "a\n\n  b\n\n") := C11_block_roundtrip _ (by decide)
+
+/-- History, about the clearly named OLD predicate `blockLiteralSafeOld` (= the code before
+/repo 05f5435, no longer tied to the tree): the same statement … -/
+def C11_block_roundtrip_old_stmt : Prop := ∀ s : Bytes, blockLiteralSafeOld s = true → BlockRoundTrips s
+
+/-- … was FALSE: "\n" was admitted, written as `|` with an empty body, and read back as "" … -/
+theorem C11_block_roundtrip_old_false : ¬ C11_block_roundtrip_old_stmt := by
   intro h
   have h1 := h [10] block_lone_newline.1 2
   rw [block_lone_newline.2] at h1
   cases h1
 
-/-- … and so is "\n a" (a blank line, then a line beginning with a blank): the content
-indentation is auto-detected from the first non-empty line, the blank is swallowed
-(class goccy-block-blank-lines-then-indented-line). -/
-theorem C11_block_indent_false : blockLiteralSafe (b "\n a") = true ∧
+/-- … and so was "\n a" (a blank line, then a line beginning with a blank, swallowed as
+indentation). -/
+theorem C11_block_indent_old_false : blockLiteralSafeOld (b "\n a") = true ∧
     parseBlock (emitBlock 2 (b "\n a")).1 (emitBlock 2 (b "\n a")).2 ≠ b "\n a" := by
   refine ⟨block_blank_then_indented.1, ?_⟩
   rw [block_blank_then_indented.2]; decide
 
-/-- The repaired predicate (`blockLiteralSafeFixed`: additionally reject strings made only of
-line breaks and strings whose first non-empty line begins with a blank or tab) rejects the
-witnesses.  -- OPEN: `∀ s, blockLiteralSafeFixed s = true → BlockRoundTrips s` is believed
-true and not proved; samples below are tests, not the property. -/
-def C11_block_roundtrip_fixed_stmt : Prop := ∀ s : Bytes, blockLiteralSafeFixed s = true → BlockRoundTrips s
-
-theorem C11_block_fixed_rejects_witnesses :
-    blockLiteralSafeFixed [10] = false ∧ blockLiteralSafeFixed (b "\n a") = false ∧
-    blockLiteralSafeFixed (b "\n\n") = false := blockFixed_rejects
-
--- tests (samples): blocks that do round-trip in the model
-example : parseBlock (emitBlock 4 (b "a\n\n  b\n\n")).1 (emitBlock 4 (b "a\n\n  b\n\n")).2 = b "a\n\n  b\n\n" := by decide
-example : parseBlock (emitBlock 2 (b "\n\na")).1 (emitBlock 2 (b "\n\na")).2 = b "\n\na" := by decide
+/-- The repaired predicate rejects the old witnesses (they take `strconv.Quote` now). -/
+theorem C11_block_rejects_old_witnesses :
+    blockLiteralSafe [10] = false ∧ blockLiteralSafe (b "\n a") = false ∧
+    blockLiteralSafe (b "\n\n") = false := block_rejects_witnesses
 
 end CueVerif.C11
